@@ -6,9 +6,9 @@ META = dict(
     explanation="Quoting functions only: Executor.QuoteEntry (sh/bash escaper and fish escaper) and escapeSingleQuote are applied to every entry "
                 "inside the bound over an alphabet of shell metacharacters; a model of POSIX (and fish single-quote) word lexing must read the result "
                 "back as exactly one word equal to the entry with no active metacharacter.",
-    functions=["util.NewExecutor", "util.(*Executor).QuoteEntry", "fzf.escapeSingleQuote", "replacePlaceholder: placeholder callback (lifted)", "fzf.parsePlaceholder"],
-    outside=["the placeholder regex and template scan", "{f} temp files", "tmux/proxy script assembly", "the real shells (used only in the seeded demonstrations)"],
-    models=["strings.NewReplacer/(*Replacer).Replace -> zzv.M_Replacer_Replace (left-to-right, argument-order priority; validated natively)", "os.Getenv -> job configuration",
+    functions=["util.NewExecutor", "util.(*Executor).QuoteEntry", "fzf.escapeSingleQuote", "fzf.replacePlaceholder (whole function, concrete templates)", "fzf.parsePlaceholder"],
+    outside=["templates other than the fixed list ({}, {+}, {q}, {n}, {+n}, \\{}, {1}, each optionally after {r})", "{f} temp files", "tmux/proxy script assembly", "the real shells (used only in the seeded demonstrations)"],
+    models=["regexp methods on concrete strings (the template) are run natively with Go's regexp","strings.NewReplacer/(*Replacer).Replace -> zzv.M_Replacer_Replace (left-to-right, argument-order priority; validated natively)", "os.Getenv -> job configuration",
             "shell lexing reference zzShWords (trusted; written from POSIX sh quoting rules and fish's two-escape rule)"],
     assumptions=["entries without NUL over {' \\\\ a space $ ` \" newline ; *}"],
 )
